@@ -62,7 +62,8 @@ ASSUMES = [
 ]
 
 SIG_UPPER = "C10: _dipole_vector segment in the upper boundary plane (zero extent, coordinate == last node)"
-WHAT_UPPER = ("fields._dipole_vector: a dipole/wire segment with zero extent in a direction whose coordinate "
+WHAT_UPPER = ("[grid h=[1,1]^3, origin 0; dipole (0.5,2,0.5)->(1.5,2,0.5): vector NaN, required sum (1,0,0)] "
+              "fields._dipole_vector: a dipole/wire segment with zero extent in a direction whose coordinate "
               "equals the LAST node of that direction (inside the grid by the function's own test) visits no "
               "cell (min_max_ind returns n, the loop is range(n, n)); all three components are then 0/0 = NaN "
               "after the 'Normalizing Source' warning; the same segment on the FIRST node is handled correctly")
@@ -473,9 +474,9 @@ def corr_point(ctx, n, dis, hist, samples):
 # ------------------------------------------------- part 3: get_source_field
 def gen_strength(rng):
     u = rng.random()
-    if u < 0.35:
+    if u < 0.45:
         return rng.randint(-40, 40) / 4 or 1.0
-    if u < 0.5:
+    if u < 0.6:
         return rng.randint(1, 9)
     return complex(rng.randint(-20, 20) / 4, rng.randint(-20, 20) / 4 or 0.5)
 
@@ -667,7 +668,8 @@ class Rec:
 
 
 def gen_conv_case(rng):
-    t = rng.choice(['p2d', 'd2p', 'loop', 'tx_point', 'tx_flat', 'tx_pair', 'tx_same'])
+    t = rng.choice(['p2d', 'd2p', 'd2p', 'loop', 'loop', 'tx_point', 'tx_point', 'tx_flat', 'tx_flat',
+                    'tx_pair', 'tx_pair', 'tx_same'])
     mag = rng.random() < 0.5
     c = [rng.randint(-64, 64) / 8 for _ in range(3)]
     az, el = gen_angle(rng, False), gen_angle(rng, True)
@@ -812,10 +814,10 @@ def correspondence(ctx):
                      + ("clamped (repaired)" if clamp else "pinned (upper-plane segments visit no cell)"))
     dis, hist, samples = [], {}, []
     t = ctx.thorough
-    n1, d1 = corr_dipole(ctx, 420 if t else 126, dis, hist, samples, clamp)
-    n2, d2 = corr_point(ctx, 200 if t else 60, dis, hist, samples)
-    n3, d3 = corr_gsf(ctx, 160 if t else 48, dis, hist, samples, clamp)
-    n4, d4 = corr_conv(ctx, 400 if t else 100, dis, hist, samples)
+    n1, d1 = corr_dipole(ctx, 420 if t else 105, dis, hist, samples, clamp)
+    n2, d2 = corr_point(ctx, 200 if t else 40, dis, hist, samples)
+    n3, d3 = corr_gsf(ctx, 160 if t else 40, dis, hist, samples, clamp)
+    n4, d4 = corr_conv(ctx, 400 if t else 75, dis, hist, samples)
     return {
         'evaluations': n1 + n2 + n3 + n4,
         'distinct_nontrivial': d1 + d2 + d3 + d4,
